@@ -123,8 +123,15 @@ def compile_stream(tier, rng, P, only=None, cases=None):
 PRINTABLE = {"note", "rest", "l", "o", "orel", "v", "vrel", "q", "t", "loop"}
 def _printable(cmds):
     for c in cmds:
-        if c[0] not in PRINTABLE: return False
+        if c[0] not in PRINTABLE and c[0] not in ("sub", "div", "chord"): return False
         if c[0] == "loop" and not (_printable(c[2]) and _printable(c[3] or [])): return False
+        if c[0] in ("sub", "div") and not _printable(c[1]): return False
+        if c[0] == "div" and len(c) >= 4 and c[3] != '{': return False          # the printer writes `{…}L`, not `Div{…}L`
+        if c[0] == "chord":
+            # members: notes, rests and plain setters; a written chord length starts with a digit or `^` (Lp.ChordLenOK)
+            if not _printable(c[1]) or any(x[0] in ("loop", "sub", "div", "chord") for x in c[1]): return False
+            lt = mml.lenstr(c[2])
+            if lt and not (lt[0].isdigit() or lt[0] == "^"): return False
         if c[0] == "l" and c[1] is not None and mml.pr([c]).startswith("l."): return False     # `l.` goes through the reservation check
     return True
 
@@ -161,6 +168,6 @@ def print_stream(tier, rng, P, only=None, cases=None):
         return None
     return Stream("print", cases if (cases and only == "print") else mk(), lambda c, st, f: [], judge,
                   lambda c, i, m: c["want"][:300] if i[0] == "ok" else None,
-                  "print: random programs of the printable fragment (notes with all parameters, rests, l o v q t, < > ( ), nested loops with ':') written by the Lean "
-                  "printer Lp.printKL (the text the theorem lex_print is about) and lexed by the REAL lexer: the token list must be Ex2.compileL of the program, "
+                  "print: random programs of the printable fragment (notes with all parameters, rests, l o v q t, < > ( ), loops with ':', chords, Sub{} and tuplets nested in "
+                  "one another) written by the Lean printer Lp.printKL2 (the text the theorems lex_print / lex_print2 are about) and lexed by the REAL lexer: the token list must be Ex2.compileL of the program, "
                   "with an empty log; the model lexer's answer on the same text is checked too. non-trivial = distinct token lists", timeout_case=20.0)
